@@ -3,7 +3,7 @@ CONSTANTS
   KCh = {"K1"}
   Modes = {"insert", "append"}
   OwnsAllSet = {FALSE}
-  Rich = 1
+  Rich = 0
   StartExtras = {{"cali-a", "cali-old", "felix-old", "other"}}
   SimLen = 5
   Composite = TRUE
